@@ -48,3 +48,8 @@ HOSTDATA_FIELDS = ['ip4', 'ip6', 'ipFuture']
 SEGMENT_FIELDS = {'content': ['text', 'next'], 'bookkeeping': ['reserved']}
 QUERYLIST_FIELDS = ['key', 'value', 'next']
 RANGE_FIELDS = ['first', 'afterLast']
+
+# fields that hold non-owning references into structures owned through another field:
+# pathTail (last node of the pathHead list), reserved (back link used by dot removal),
+# afterLast (points into / one past the block held by `first`)
+NONOWNING_FIELDS = {'pathTail', 'reserved', 'afterLast'}
